@@ -623,6 +623,11 @@ func (m *a8Model) boundedUncached(v ssa.Value, at *ssa.BasicBlock, side int) boo
 		for i, e := range x.Edges {
 			pred := x.Block().Preds[i]
 			if !m.tainted[e] {
+				// a server-side length is never negative, but `length - 1` is when the value is empty: a clamp to the
+				// last position needs the length to be at least 1 there
+				if side == sideLower && !m.lowerGE(e, pred, 0, 0) {
+					return false
+				}
 				continue
 			}
 			// edge condition pred -> phi block
@@ -714,7 +719,27 @@ func (m *a8Model) lowerGE(v ssa.Value, at *ssa.BasicBlock, c int64, depth int) b
 				return m.lowerGE(bo.X, at, c-k, depth+1)
 			}
 		}
-		return c <= 0
+		if c <= 0 {
+			return true
+		}
+		// a positive lower bound of a length: a multiple of a length that is at least 1, every way into a merge, or a
+		// dominating test of the length itself (`if length == 0 { return }`)
+		switch x := v.(type) {
+		case *ssa.BinOp:
+			if k, isC := constInt(x.Y); isC && x.Op == token.MUL && k > 0 {
+				return m.lowerGE(x.X, at, (c+k-1)/k, depth+1)
+			}
+		case *ssa.Convert:
+			return m.lowerGE(x.X, at, c, depth+1)
+		case *ssa.Phi:
+			for i, e := range x.Edges {
+				if !m.lowerGE(e, x.Block().Preds[i], c, depth+1) {
+					return false
+				}
+			}
+			return true
+		}
+		return m.guardedGEx(v, at, c, true)
 	}
 	if c <= 0 && m.bounded(v, at, sideLower) {
 		return true
@@ -755,6 +780,11 @@ func (m *a8Model) lowerGE(v ssa.Value, at *ssa.BasicBlock, c int64, depth int) b
 
 // guardedGE: every path to blk passes an edge on which v >= c (c > 0) holds by comparison with a constant.
 func (m *a8Model) guardedGE(v ssa.Value, blk *ssa.BasicBlock, c int64) bool {
+	return m.guardedGEx(v, blk, c, false)
+}
+
+// guardedGEx: nonneg — v is known not to be negative (a length or count), so `v != 0` means v >= 1.
+func (m *a8Model) guardedGEx(v ssa.Value, blk *ssa.BasicBlock, c int64, nonneg bool) bool {
 	rv := a8root(v)
 	est := func(d *ssa.BasicBlock, idx int) bool {
 		ifi, ok := d.Instrs[len(d.Instrs)-1].(*ssa.If)
@@ -779,6 +809,10 @@ func (m *a8Model) guardedGE(v ssa.Value, blk *ssa.BasicBlock, c int64) bool {
 			return onTrue && k >= c
 		case token.GTR:
 			return onTrue && k+1 >= c
+		case token.EQL:
+			return nonneg && !onTrue && k == 0 && c <= 1
+		case token.NEQ:
+			return nonneg && onTrue && k == 0 && c <= 1
 		}
 		return false
 	}
